@@ -381,6 +381,8 @@ void run_cb(vh::Case &c, const CbConfig &cfg)
     c.tag("wrap-around");
   if (rs.forced_switches)
     c.tag("quantum-switch");
+  if (rs.stalls)
+    c.tag("long-stall");
   c.nontrivial = rs.preemptions > 0 || rs.spurious > 0 || wrap;
   // the schedule actually taken is part of the case identity
   std::string sch = " sched=";
